@@ -563,16 +563,34 @@ fn oracles(
     st.others_checked += 1;
     let full_norm: BTreeSet<String> = full_leaves.iter().map(|l| strip_derives(&l.text)).collect();
     let mut touched: BTreeSet<usize> = c.blocked.union(&c.opaque).copied().collect();
+    let mut unselected: Vec<String> = vec![];
     // items the implementation itself regards as blocklisted / opaque (a typedef of an annotated type
     // inherits the annotation; instantiations and aliases follow their definition)
     for it in &run.dump.items {
         if (it.blocklisted || it.opaque) && it.kind != "module" {
             if let Some(d) = it.name.split("::").find_map(|comp| p.resolve_ident(&map, comp)) {
-                if touched.insert(d) {
-                    st.bump("touched-by-inheritance");
+                if !touched.contains(&d) {
+                    // inheritance is legitimate for a typedef / template whose definition uses a selected declaration;
+                    // a record, enum, function or variable that no option, annotation or file pattern selects must
+                    // not be regarded as blocklisted / opaque (judged on the generator's own selection, not on what
+                    // the implementation under test says)
+                    let inherits = matches!(p.decls[d].kind, DKind::Typedef | DKind::Template) || p.decls[d].deps.iter().any(|x| c.blocked.contains(x) || c.opaque.contains(x));
+                    if inherits || it.name.contains('<') {
+                        touched.insert(d);
+                        st.bump("touched-by-inheritance");
+                    } else if !it.blocklisted {
+                        // an opaque pattern over a namespace also flags functions and variables: without effect
+                        touched.insert(d);
+                    } else if !unselected.contains(&p.path(d)) {
+                        unselected.push(p.path(d));
+                    }
                 }
             }
         }
+    }
+    if !unselected.is_empty() {
+        fails.push(Failure { kind: "oracle-unselected-item", detail: format!("the implementation treats {:?} as blocklisted / opaque although no pattern, annotation or file option selects them (flags {:?})", unselected, c.flags), input: case_json(c) });
+        return;
     }
     // declarations that (transitively) use a touched one may legitimately change their derives, their
     // union representation and their manual impls; their layout is checked by the compiler below
